@@ -154,7 +154,11 @@ CONTEXTS = {
     "bank": [{"e": "openBankData", "a": "b1"}],
     "song": [{"e": "openBankData", "a": "b2"}, {"e": "openData", "a": "s1"}, {"e": "setLoopEnabled", "v": 1}],
     "note": [{"e": "openBankData", "a": "b1"}, {"e": "rt_noteOn", "ch": 0, "k": 64, "v": 127}, {"e": "rt_noteOn", "ch": 9, "k": 64, "v": 127}],
+    # a burst of simultaneous drum hits that fills the chip channels of several chips (noteBurst = cnt x opn2_rt_noteOn, keys k, k+1, ...):
+    # the swept call follows inside the 30 ms minimal life time of the notes; ApiSurfaceMC!Sfx appends a render and a tick
+    "drums": [{"e": "openBankData", "a": "b1"}, {"e": "setNumChips", "n": 4}, {"e": "noteBurst", "ch": 9, "k": 35, "cnt": 22, "v": 127}],
 }
+# (the contexts actually run are ApiSurfaceMC!Ctx: TLC prints complete SWEEP histories; this table documents the first ones)
 
 
 def sweep_histories(calls_by_ctx, rng, per_history=40):
